@@ -15,7 +15,9 @@ RULE = (
     "GTF files with 1-3 genes (own seqid/strand), 1-3 transcripts each, 0-4 exons and 0-3 CDS/other sub-features per "
     "transcript with random coordinates (non-exon features may extend beyond the exons), optional explicit gene / transcript "
     "lines, lines in a generated permutation, any GTF dialect, all four disable_infer_* combinations, and (labelled share) "
-    "custom transcript/gene keys and subfeature type with the matching dict id_spec. Non-trivial = a gene with >= 2 "
+    "custom transcript/gene keys and subfeature type with the matching dict id_spec; a labelled share of cases delivers the last "
+    "gene, or one transcript's exons, later through update(), optionally preceded by an update with a constructor-built "
+    "(default-dialect) Feature and a reopen of the file. Non-trivial = a gene with >= 2 "
     "transcripts, or shuffled lines, or an explicit line, or an exon-less transcript. Distinct by hash."
 )
 ASSUMPTIONS = [
